@@ -151,7 +151,7 @@ use std::fmt::{Debug, Display};
 use std::ops::{Add, Div, Mul, Sub};
 use std::panic::{catch_unwind, AssertUnwindSafe};
 
-fn amounts() -> Vec<AmountT> { vec![Amnt!(1), Amnt!(17.4), Amnt!(-2.5), Amnt!(0.001)] }
+fn amounts() -> Vec<AmountT> { vec![Amnt!(1), Amnt!(17.4), Amnt!(-2.5), Amnt!(0.001), Amnt!(0), -Amnt!(0.0)] }
 
 /// one corpus line; an operation that panics (Decimal overflow) is part of the observable behaviour too
 fn line(f: impl FnOnce() -> String) {
@@ -170,7 +170,7 @@ where Q: HasRefUnit + Debug + Display + PartialEq + PartialOrd + Add<Q, Output =
         for v in &us {
             for a in amounts() {
                 let (q, r) = (Q::new(a, *u), Q::new(a, *v));
-                line(|| format!("{name} {:?}->{:?} {:?} | {} | {:>14.3}", u, v, q.convert(*v).amount(), q, q));
+                line(|| format!("{name} {:?}->{:?} {:?} | {} | {:>14.3} | {:+09.1} | {:*^12}", u, v, q.convert(*v).amount(), q, q, q, q));
                 line(|| format!("{name} cmp {:?} {:?}", q == r, PartialOrd::partial_cmp(&q, &r)));
                 line(|| format!("{name} + {:?}", (q + r).amount()));
                 line(|| format!("{name} - {:?}", (q - r).amount()));
